@@ -57,6 +57,26 @@ def gen(ctx):
         if rng.random() < 0.08:
             dm = M.narrow_int_variant(rng, dm)
         cases.append({"kind": "score", "spec": spec, "dm": dm})
+    # a fixed share: criteria spanning many orders of magnitude (1e14 next to 4e-3 in one criterion) — ideal / anti-ideal are cells of the
+    # weighted matrix, whatever else is in the column
+    for _ in range(ctx.n(30, 300)):
+        spec = rng.choice([{"name": "TOPSIS", "metric": rng.choice(["euclidean", "cityblock", "chebyshev", "sqeuclidean"])}, {"name": "RefPointMOORA"}])
+        dm = M.in_domain_dm(rng, spec, min_m=3, max_m=8, min_n=2, max_n=4, family="float", ties=0.0, dups=0.0)
+        j = rng.randrange(len(dm["objectives"]))
+        big, small = rng.choice([1e14, 3.0e12, 2.0 ** 53, 1e16]), rng.choice([3.7e-3, 1.25e-2, 0.5, 1e-5])
+        rows = list(range(len(dm["matrix"])))
+        rng.shuffle(rows)
+        dm["matrix"][rows[0]][j] = big
+        dm["matrix"][rows[1]][j] = small
+        cases.append({"kind": "score", "spec": spec, "dm": dm})
+    # … and MultiMOORA on more than 127 / 255 alternatives (component rankings with more than 127 distinct ranks)
+    for m_ in ([130, 260] if not ctx.thorough else [130, 200, 260, 300]):
+        spec = {"name": "MultiMOORA"}
+        dm = M.in_domain_dm(rng, spec, min_m=4, max_m=6, min_n=2, max_n=3, family="float", ties=0.0, dups=0.0)
+        dm["matrix"] = [[float(G.value(rng, "float", True)) for _ in dm["objectives"]] for _ in range(m_)]
+        dm["alternatives"] = [f"L{i}" for i in range(m_)]
+        dm["int_matrix"] = False
+        cases.append({"kind": "score", "spec": spec, "dm": dm})
     # malformed stream: refusal clause
     combos = [(nm, hw) for nm in ("WSM", "WPM", "FMF", "MultiMOORA") for hw in ("min-objective", "zero", "negative", "tiny-negative", "none")]
     for it in range(ctx.n(120, 1500)):
@@ -299,10 +319,14 @@ def judge(case, obs, replies):
     def numeric(key, impl, exact_vals, scale, what):
         tol = 1e-9 * scale
         bad = None
+        # ideal / anti-ideal / reference point are SELECTED cells (a maximum or minimum of (weighted) values): each coordinate carries
+        # the rounding of its own product only, so it is judged relative to ITS OWN size, not to the largest value of the problem
+        own = key in ("ideal", "anti_ideal", "reference_point")
         for i, (a, b) in enumerate(zip(impl, exact_vals)):
             if b is None:
                 continue
-            if not np.isfinite(a) or abs(D(a) - D(b)) > D(tol):
+            t = D(1e-9) * abs(D(b)) if own else D(tol)
+            if not np.isfinite(a) or abs(D(a) - D(b)) > t:
                 bad = i
                 break
         if bad is not None:
